@@ -150,7 +150,16 @@ func (tr *trans) instr(in ssa.Instruction, st State) {
 	case *ssa.Go:
 		tr.goStmt(x, st)
 	case *ssa.Send:
-		tr.warnf("channel send at %s modelled as no-op", tr.srcText(x.Pos()))
+		// a send is recorded in the ghost send history of the channel (no receiver is modelled)
+		et := x.Chan.Type().Underlying().(*types.Chan).Elem()
+		snN, snAt := tr.sentVars(et)
+		ch := tr.val(x.Chan)
+		nAll := tr.getState(st, snN)
+		atAll := tr.getState(st, snAt)
+		n := sel(nAll, ch)
+		tr.setState(st, snAt, store(atAll, ch, store(sel(atAll, ch), n, tr.val(x.X))))
+		tr.setState(st, snN, store(nAll, ch, app("+", n, "1")))
+		tr.note("channel sends are recorded in a ghost history; blocking and the receiver are not modelled")
 	case *ssa.Select:
 		tr.warnf("select at %s modelled as arbitrary choice", tr.srcText(x.Pos()))
 		name := q(x.Name())
@@ -191,7 +200,7 @@ func (tr *trans) alloc(x *ssa.Alloc, st State) {
 	ref := tr.newRef(st)
 	tr.setVal(x, ref)
 	et := x.Type().Underlying().(*types.Pointer).Elem()
-	l := &Loc{kind: locObj, ref: ref, ty: et}
+	l := tr.locOf(x)
 	tr.store(st, l, tr.vc.zero(et))
 	tr.onAlloc(ref, et, st)
 }
@@ -752,12 +761,34 @@ func (tr *trans) ret(x *ssa.Return, st State) {
 				// some local of the clause does not exist yet at this return: the clause must be vacuous here,
 				// i.e. its antecedent must be false
 				imp, ok := it.E.(*EBinary)
-				var errs2 []string
-				cenv.errs = &errs2
+				goal = "false"
+				okAny := false
 				if ok && imp.Op == "==>" {
-					goal = not(cenv.elabBool(imp.X))
+					// the antecedent is a conjunction: it is enough that one conjunct that can be stated here is false
+					var conj []Expr
+					var split func(e Expr)
+					split = func(e Expr) {
+						if b, isB := e.(*EBinary); isB && b.Op == "&&" {
+							split(b.X)
+							split(b.Y)
+							return
+						}
+						conj = append(conj, e)
+					}
+					split(imp.X)
+					var alts []Term
+					for _, cj := range conj {
+						var errs2 []string
+						cenv.errs = &errs2
+						t := cenv.elabBool(cj)
+						if len(errs2) == 0 {
+							alts = append(alts, not(t))
+							okAny = true
+						}
+					}
+					goal = or(alts...)
 				}
-				if !ok || imp.Op != "==>" || len(errs2) > 0 {
+				if !okAny {
 					tr.errs = append(tr.errs, errs...)
 					goal = "false"
 				}
@@ -787,7 +818,7 @@ func (tr *trans) frameObligations(st State, k int, pos token.Pos) {
 	fp := tr.footprint(env, tr.fc.Modifies)
 	next0 := tr.getState(tr.entry, "$next")
 	for _, name := range sortedKeys(tr.known) {
-		if name == "$next" || strings.HasPrefix(name, "call.") || strings.HasPrefix(name, "iter.") || strings.HasPrefix(name, "lock.") || strings.HasPrefix(name, "recv.") || strings.HasPrefix(name, "L.") || strings.HasPrefix(name, "defer.") {
+		if name == "$next" || strings.HasPrefix(name, "call.") || strings.HasPrefix(name, "iter.") || strings.HasPrefix(name, "lock.") || strings.HasPrefix(name, "recv.") || strings.HasPrefix(name, "sent.") || strings.HasPrefix(name, "L.") || strings.HasPrefix(name, "defer.") {
 			continue
 		}
 		if _, ok := tr.stateSort[name]; !ok {
@@ -982,4 +1013,13 @@ func (tr *trans) sourceNameOf(v ssa.Value) string {
 		}
 	}
 	return v.Name()
+}
+
+// sentVars: ghost send histories, keyed by channel reference.
+func (tr *trans) sentVars(et types.Type) (string, string) {
+	n := "sent.n"
+	at := "sent.at." + typeKey(et)
+	tr.stateSort[n] = "(Array Int Int)"
+	tr.stateSort[at] = "(Array Int (Array Int " + tr.vc.sortOf(et) + "))"
+	return n, at
 }
